@@ -31,16 +31,16 @@ BATTERY = {
     "C04": [("rand", 500, 30000), ("stop", 300, 10000), ("ties", 140, 768), ("dead", 100, 4000),
             ("tiny", 60, 324), ("samerow", 144, 144)],
     "C02": [("stop", 700, 40000), ("dead", 250, 12000), ("ties", 80, 768), ("tiny", 60, 324),
-            ("bigrew", 36, 36), ("slow", 40, 108)],
+            ("bigrew", 36, 36), ("slow", 40, 108), ("slowrew", 48, 72)],
     "C03": [("dead", 400, 20000), ("rand", 400, 20000), ("stop", 200, 8000), ("tiny", 80, 324),
             ("nonabs", 100, 504), ("zerow", 36, 36)],
     "C05": [("stop", 700, 40000), ("dead", 200, 8000), ("ties", 140, 768), ("nonabs", 120, 504),
-            ("bigrew", 36, 36), ("diag", 80, 160), ("samerow", 144, 144)],
+            ("bigrew", 36, 36), ("diag", 80, 160), ("samerow", 144, 144), ("slowrew", 36, 72)],
     "C06": [("stop", 600, 30000), ("dead", 300, 20000), ("rand", 200, 8000), ("tiny", 60, 324),
             ("edit", 120, 6000), ("nonabs", 100, 504), ("slow", 40, 108),
             ("zerow", 36, 36)],
     "C14": [("stop", 800, 40000), ("dead", 250, 12000), ("diag", 160, 160), ("nonabs", 60, 504),
-            ("samerow", 144, 144), ("loopdiag", 72, 72)],
+            ("samerow", 144, 144), ("loopdiag", 72, 72), ("slowrew", 36, 72)],
     "C10": [("hist", 250, 12000), ("edit", 120, 6000), ("zerow", 36, 36)],
     "C13": [("perm", 400, 20000)],
 }
@@ -63,10 +63,24 @@ def both_script(stopping, variant=0):
             {"op": "snap", "d": 1}]
 
 
-def hist_script(calls):
+def hist_script(calls, variant=0):
+    """variant % 3 == 1: the player labels alternate between the constants exported by tad and
+    equal strings from a parser; variant % 3 == 2: the first call once more in a fresh
+    interpreter with another string-hash seed ("again" = the next run of the tool)."""
     out = [{"op": "snap", "d": 1}]
-    for c in calls:
-        out.append({"op": "call", "d": 1, "prune": bool(c["prune"]), "mode": "solve", "obj": c["obj"]})
+    for j, c in enumerate(calls):
+        op = {"op": "call", "d": 1, "prune": bool(c["prune"]), "mode": "solve", "obj": c["obj"]}
+        if variant % 3 == 1:
+            op["labels"] = "const" if j % 2 == 0 else "fresh"
+        out.append(op)
+        out.append({"op": "snap", "d": 1})
+    if variant % 3 == 1 and len(calls) == 1:
+        out.append({"op": "call", "d": 1, "prune": bool(calls[0]["prune"]), "mode": "solve", "obj": "new",
+                    "labels": "fresh"})
+        out.append({"op": "snap", "d": 1})
+    if variant % 3 == 2 and calls:
+        out.append({"op": "call", "d": 1, "prune": bool(calls[0]["prune"]), "mode": "solve", "obj": "new",
+                    "xproc": 1 + variant % 7})
         out.append({"op": "snap", "d": 1})
     return out
 
@@ -101,7 +115,7 @@ def build_sessions(gens, exact=True):
         s = {"tid": len(sessions) + 1, "fam": d["fam"], "exact": exact}
         if d["fam"] == "hist":
             s["descs"] = [d["g"]]
-            s["script"] = hist_script(d["calls"])
+            s["script"] = hist_script(d["calls"], s["tid"])
         elif d["fam"] == "edit":
             s["descs"] = [d["g"], d["g2"]]
             s["script"] = edit_script(d["calls"])
